@@ -32,6 +32,7 @@ type AssertSpec struct {
 	Anchor string
 	C      Clause
 	Assume bool
+	Apply  bool
 }
 
 type Contract struct {
@@ -93,6 +94,8 @@ func splitTags(s string) (string, []string) {
 	tags := strings.Fields(s[m[2]:m[3]])
 	return strings.TrimSpace(s[:m[0]]), tags
 }
+
+var inductRe = regexp.MustCompile(`\)\s+induct\s+(\w+)\s*:`)
 
 var labelRe = regexp.MustCompile(`^([A-Za-z_][A-Za-z0-9_.\-]*):\s+`)
 
@@ -172,6 +175,11 @@ func (cs *ContractSet) parseFile(path string) error {
 		case "lemma":
 			rest, tags := splitTags(rest)
 			// lemma name(a int, s seq): expr
+			induct := ""
+			if m := inductRe.FindStringSubmatch(rest); m != nil {
+				induct = m[1]
+				rest = strings.Replace(rest, m[0], "):", 1)
+			}
 			j := strings.Index(rest, "):")
 			k := strings.Index(rest, "(")
 			if j < 0 || k < 0 || k > j {
@@ -195,7 +203,7 @@ func (cs *ContractSet) parseFile(path string) error {
 			if err != nil {
 				return fail(err)
 			}
-			cs.Lemmas = append(cs.Lemmas, &Lemma{Name: name, Params: params, C: Clause{Label: name, E: e, Src: src, Tags: tags, File: path, Line: lnos[i]}, Tags: tags})
+			cs.Lemmas = append(cs.Lemmas, &Lemma{Name: name, Params: params, Induc: induct, C: Clause{Label: name, E: e, Src: src, Tags: tags, File: path, Line: lnos[i]}, Tags: tags})
 			cur = nil
 		default:
 			if cur == nil {
@@ -300,6 +308,30 @@ func (c *Contract) addClause(kw, rest, path string, line int) error {
 		default:
 			return fmt.Errorf("unknown loop clause %q", f[1])
 		}
+	case "apply":
+		// apply at "anchor" lemma(args): instantiate a proven lemma at a program point
+		if !strings.HasPrefix(rest, "at ") {
+			return fmt.Errorf("apply at \"anchor\" lemma(args)")
+		}
+		r := strings.TrimSpace(rest[3:])
+		if !strings.HasPrefix(r, "\"") {
+			return fmt.Errorf("anchor string expected")
+		}
+		j := strings.Index(r[1:], "\"")
+		if j < 0 {
+			return fmt.Errorf("unterminated anchor")
+		}
+		anchor := r[1 : 1+j]
+		call := strings.TrimSpace(r[j+2:])
+		e, err := parseExpr(call)
+		if err != nil {
+			return err
+		}
+		ce, ok := e.(*ECall)
+		if !ok {
+			return fmt.Errorf("apply: lemma(args) expected")
+		}
+		c.Asserts = append(c.Asserts, AssertSpec{Anchor: anchor, C: Clause{Label: ce.Fn, E: e, Src: call, File: path, Line: line}, Apply: true})
 	case "assert", "assume":
 		// assert at "anchor" expr
 		if !strings.HasPrefix(rest, "at ") {
